@@ -300,6 +300,40 @@ pub struct ExploreStats {
     /// under parallel search; each signature keeps the shortest schedule seen).
     pub violations: Vec<(String, String, Vec<u8>)>,
     pub machinery_errors: Vec<String>,
+    /// What the oracle said about its own applicability, per execution (see `oracle_note`).
+    pub oracle_notes: std::collections::BTreeMap<String, u64>,
+}
+
+// ------------------------------------------------------------------------------------------
+// Oracle applicability notes. An oracle that declines to judge an execution (an external stop, a
+// fault the harness injected, ...) says so with `oracle_note("skipped: <why>")`, and says
+// `oracle_note("judged")` when it evaluated its laws. The counts travel with the exploration
+// statistics into the evidence of the leg, so a leg whose laws are silently vacuous shows up as
+// `judged` = 0 (or close to it) instead of as a quiet pass.
+// ------------------------------------------------------------------------------------------
+
+static ORACLE_NOTES: Mutex<std::collections::BTreeMap<String, u64>> = Mutex::new(std::collections::BTreeMap::new());
+static LEG_NOTES: Mutex<std::collections::BTreeMap<String, std::collections::BTreeMap<String, u64>>> = Mutex::new(std::collections::BTreeMap::new());
+
+pub fn oracle_note(key: &str) {
+    *ORACLE_NOTES.lock().unwrap().entry(key.to_string()).or_default() += 1;
+}
+
+fn take_oracle_notes() -> std::collections::BTreeMap<String, u64> {
+    std::mem::take(&mut *ORACLE_NOTES.lock().unwrap())
+}
+
+/// Adds the notes of one exploration to those recorded for `leg`.
+pub fn record_leg_notes(leg: &str, notes: &std::collections::BTreeMap<String, u64>) {
+    let mut g = LEG_NOTES.lock().unwrap();
+    let e = g.entry(leg.to_string()).or_default();
+    for (k, v) in notes {
+        *e.entry(k.clone()).or_default() += v;
+    }
+}
+
+pub fn leg_notes(leg: &str) -> Option<std::collections::BTreeMap<String, u64>> {
+    LEG_NOTES.lock().unwrap().get(leg).cloned().filter(|m| !m.is_empty())
 }
 
 struct Shared {
@@ -315,6 +349,7 @@ pub fn explore<W: World>(cfg: &W::Cfg, bound: u32, max_exec: u64, threads: usize
 /// As `explore`, additionally stopping (and reporting `capped`) once `deadline` has passed.
 pub fn explore_until<W: World>(cfg: &W::Cfg, bound: u32, max_exec: u64, threads: usize, deadline: Option<std::time::Instant>) -> ExploreStats {
     let mut stats = ExploreStats::default();
+    let _ = take_oracle_notes();
     // canonical schedule twice: determinism check
     let c1 = match run_one::<W>(cfg, &[], false) {
         Ok(r) => r,
@@ -445,6 +480,7 @@ pub fn explore_until<W: World>(cfg: &W::Cfg, bound: u32, max_exec: u64, threads:
     stats.max_len = max_len.load(Ordering::Relaxed) as usize;
     stats.violations = viols.into_inner().unwrap();
     stats.machinery_errors = errs.into_inner().unwrap();
+    stats.oracle_notes = take_oracle_notes();
     stats
 }
 
@@ -458,6 +494,9 @@ pub fn merge(into: &mut ExploreStats, other: ExploreStats) {
     into.capped |= other.capped;
     into.violations.extend(other.violations);
     into.machinery_errors.extend(other.machinery_errors);
+    for (k, v) in other.oracle_notes {
+        *into.oracle_notes.entry(k).or_default() += v;
+    }
 }
 
 /// Stack size of an execution thread. Small enough that glibc's thread-stack cache (40 MiB by
@@ -503,6 +542,7 @@ fn stats_to_json(idx: usize, st: &ExploreStats) -> String {
         "nontrivial": st.nontrivial, "max_len": st.max_len, "capped": st.capped,
         "violations": st.violations.iter().map(|(s, e, c)| serde_json::json!([s, e, c])).collect::<Vec<_>>(),
         "machinery_errors": st.machinery_errors,
+        "oracle_notes": st.oracle_notes,
     })
     .to_string()
 }
@@ -523,6 +563,11 @@ fn stats_from_json(v: &serde_json::Value) -> (usize, ExploreStats) {
     }
     if let Some(a) = v["machinery_errors"].as_array() {
         st.machinery_errors = a.iter().map(|x| x.as_str().unwrap_or("").to_string()).collect();
+    }
+    if let Some(m) = v["oracle_notes"].as_object() {
+        for (k, n) in m {
+            st.oracle_notes.insert(k.clone(), n.as_u64().unwrap_or(0));
+        }
     }
     (v["idx"].as_u64().unwrap_or(0) as usize, st)
 }
@@ -577,6 +622,7 @@ pub fn grid_explore<W: World>(leg: &str, cfgs: &[W::Cfg], bound: u32, max_exec: 
             if let Some(j) = line.strip_prefix("GRIDRESULT ") {
                 if let Ok(v) = serde_json::from_str::<serde_json::Value>(j) {
                     let (idx, st) = stats_from_json(&v);
+                    record_leg_notes(leg, &st.oracle_notes);
                     if idx < results.len() {
                         results[idx] = Some(st);
                     }
